@@ -28,6 +28,34 @@ def de(d):                                 # DateDElong
     return "%02d%02d%04d" % (d.day, d.month, d.year)
 
 
+def fdate(d, datefmt="DateDElong"):
+    """a date as the input files / the configuration spell it in the given Dateformat"""
+    a, b = (d.month, d.day) if datefmt.startswith("DateEN") else (d.day, d.month)
+    return ("%02d%02d%02d" % (a, b, d.year % 100)) if datefmt.endswith("short") else ("%02d%02d%04d" % (a, b, d.year))
+
+
+def fannual(d, datefmt="DateDElong"):
+    return ("%02d%02d" % (d.month, d.day)) if datefmt.startswith("DateEN") else ("%02d%02d" % (d.day, d.month))
+
+
+def parse_out_date(s, datefmt="DateDElong", century_split=50):
+    """a date of a result file (KalenderConverter with separator '.') back to the civil date; None when it is not one"""
+    import re
+    s = s.strip()
+    short = datefmt.endswith("short")
+    m = re.fullmatch(r"(\d\d)\.(\d\d)\.(\d\d)" if short else r"(\d\d)\.(\d\d)\.(\d\d\d\d)", s)
+    if not m:
+        return None
+    a, b, y = int(m.group(1)), int(m.group(2)), int(m.group(3))
+    if short:
+        y = 2000 + y if y < century_split else 1900 + y
+    dd, mm = (b, a) if datefmt.startswith("DateEN") else (a, b)
+    try:
+        return datetime.date(y, mm, dd)
+    except ValueError:
+        return None
+
+
 def hexf(x):
     """exact hex literal of a python float in a form Coq's float_scope reads"""
     if x != x:
@@ -125,7 +153,7 @@ def write_project(root, pname, cfg, rotation, daily=None, yearly=None, crop=None
     with open(os.path.join(pdir, "crop_%s.txt" % pname), "w") as f:
         f.write("Field_ID    crp  sowing harvst Rex yld autorg variety comment\n")
         for i, (crp, sow, har) in enumerate(rotation):
-            f.write("%-9s %-3s %s %s %s %s 0 \n" % (FIELD, crp, de(sow) if sow else "--------", de(har),
+            f.write("%-9s %-3s %s %s %s %s 0 \n" % (FIELD, crp, fdate(sow, c["Dateformat"]) if sow else "-" * len(fdate(har, c["Dateformat"])), fdate(har, c["Dateformat"]),
                                                      "080" if i == 0 else "000", "050" if i == 0 else "000"))
         f.write("end\n")
     raw_confs = raw_confs or {}
